@@ -616,12 +616,13 @@ example : (RM.run (RM.init .cacheTake) takePanicDemo).map
       (fun s => (s.ncreate 2, s.res 2, s.pc 0, s.pc 1, (s.calls 2).isNone))
     = some (0, none, RM.PC.idle, RM.PC.idle, true) := by decide
 
-/-! `Inject` (outside `RM.Reach`; what the code does): registered *before* any call it is simply the instance
+/-! `Inject` (outside `RM.Reach`, inside `RM.ReachI` when the manager is quiescent and the key holds nothing: `rm_inject_*`
+at the end of this file; what the code does): registered *before* any call it is simply the instance
 everyone gets and `create` never runs; registered *after* a successful create it replaces the stored instance, so
 later callers hold a different instance than earlier ones — `Inject` is a test hook, not covered by the property. -/
 example : ((RM.inject (RM.init .getResource) 2 5).bind fun s => RM.run s ([(0,2)] ++ List.replicate 16 (0,0))).map
-      (fun s => (s.rets.map fun r => (r.tid, r.key, r.val), s.ncreate 2))
-    = some ([(0, 2, 5)], 0) := by decide
+      (fun s => (s.rets.map fun r => (r.tid, r.key, r.val), s.ncreate 2, s.inst 2))
+    = some ([(0, 2, 5)], 1, 5) := by decide   -- (ghost: the registration counts as the key's one creation, `rm_injected_is_handed_out`)
 
 example : (((RM.run (RM.init .getResource) rmDemo).bind fun s => RM.inject s 2 5).bind fun s =>
         RM.run s ([(3,2)] ++ List.replicate 16 (3,0))).map (fun s => s.rets.map fun r => (r.tid, r.key, r.val))
@@ -958,5 +959,52 @@ theorem rm_keys_independent_partial {s : RM.St} (h : RM.Reach s) (t : Tid) (x : 
 /-- non-vacuity: goroutine 1 joined goroutine 0's flight on key 2 and is blocked in `Wait` while `create` runs. -/
 example : (RM.run (RM.init .getResource) (rmDemo.take 16)).map (fun s => (s.pc 1, (RM.step s 1 0).isSome, decide (s.key 1 = s.key 0)))
     = some (.w1, false, true) := by decide
+
+
+/-! ### Round 5: `ResourceManager.Inject` inside the theorems (`RM.ReachI`: calls and registrations — a registration while
+no call is in progress, of a key that holds nothing, with a non-nil resource; this is how mon's `Inject` test hook is
+used and how the correspondence runs pre-register resources) -/
+
+/-- with registrations, too, each key gets its instance at most once (a registration counts as the creation) … -/
+theorem rm_inject_create_once {s : RM.St} (h : RM.ReachI s) (k : Key) : s.ncreate k ≤ 1 :=
+  ((RM.inv_reachI h).r3 k).1
+
+/-- … and everyone is handed that one instance. -/
+theorem rm_inject_same_instance {s : RM.St} (h : RM.ReachI s) (r : RRet) (hr : r ∈ s.rets) (hv : r.val ≠ 0) :
+    s.ncreate r.key = 1 ∧ r.val = s.inst r.key := by
+  have := (RM.inv_reachI h).retsI r hr hv
+  exact ⟨this.1, this.2.symm⟩
+
+theorem rm_run_keeps_instance (k : Key) (l : List (Tid × Nat)) : ∀ (s1 s2 : RM.St), RM.ReachI s1 → s1.ncreate k = 1 →
+    RM.run s1 l = some s2 → RM.ReachI s2 ∧ s2.ncreate k = 1 ∧ s2.inst k = s1.inst k := by
+  induction l with
+  | nil => intro s1 s2 h h1 hr; simp [RM.run] at hr; subst hr; exact ⟨h, h1, rfl⟩
+  | cons a l ih =>
+    intro s1 s2 h h1 hr
+    simp only [RM.run] at hr
+    split at hr
+    · rename_i s' hs'
+      have st := RM.inst_stable (RM.inv_reachI h) hs' k h1
+      have := ih s' s2 (.step a.1 a.2 h hs') st.1 hr
+      exact ⟨this.1, this.2.1, by rw [this.2.2, st.2]⟩
+    · simp at hr
+
+/-- **a registered resource is THE instance of its key for ever**: after `Inject(k, v)` (quiescent manager, `k` holds
+nothing, `v` not nil) and ANY further schedule, `create` for `k` never succeeds again and every call on `k` that
+returns a resource returns `v`. -/
+theorem rm_injected_is_handed_out {s s1 s2 : RM.St} {k : Key} {v : Val} (h : RM.ReachI s) (hq : ∀ t, s.pc t = .idle)
+    (hk : s.res k = none) (hv : v ≠ 0) (hi : RM.inject s k v = some s1) (l : List (Tid × Nat))
+    (hrun : RM.run s1 l = some s2) :
+    s2.ncreate k = 1 ∧ s2.inst k = v ∧ ∀ r ∈ s2.rets, r.key = k → r.val ≠ 0 → r.val = v := by
+  have h1 : RM.ReachI s1 := .inject k v h hq hk hv hi
+  have hs1 : s1.ncreate k = 1 ∧ s1.inst k = v := by
+    unfold RM.inject at hi
+    split at hi
+    · simp at hi; subst hi; simp [upd]
+    · simp at hi
+  obtain ⟨h2, hn, hin⟩ := rm_run_keeps_instance k l s1 s2 h1 hs1.1 hrun
+  refine ⟨hn, by rw [hin, hs1.2], fun r hr hrk hrv => ?_⟩
+  have := (rm_inject_same_instance h2 r hr hrv).2
+  rw [this, hrk, hin, hs1.2]
 
 end GoZero.C07
